@@ -33,7 +33,7 @@ extern "C" void harness(void)
   size_t c2 = cm->sequences->get_calls();
   if (H == 0)
   {
-    VASSERT(threw && vf_nreports == 1 && vf_reports[0].fatal, "run.forbidden_one_fatal");
+    VASSERT(threw && vf_nreports == 1 && vf_first.fatal, "run.forbidden_one_fatal");
     VASSERT(c2 == c && effects == 0, "run.forbidden_no_change");
     VASSERT(e->is_satisfied() && e->is_saturated(), "run.forbidden_flags");
     VASSERT(cm->is_linked() && &*m.trompeloeil_l_expectations_100.active.begin() == cm, "run.forbidden_stays_active");
